@@ -14,6 +14,11 @@ def make_prog(seed, prop, idx, profile, spec=None):
     spec = spec or {}
     params = {'mode': rng.choice(spec.get('modes', MODES)), 'sched': rng.choice(spec.get('scheds', SCHEDS)),
               'backend': rng.choice(spec.get('backends', BACKENDS)), 'via': 'builder', 'key': 'k'}
+    if profile.get('rn_only_p') and rng.random() < profile['rn_only_p']:
+        # consumers that only use read_next: the AtLeastOnce redelivery bound of C09 applies to them
+        profile = dict(profile, read_w=[5, 0, 0.3, 0, 0.3, 0, 0])
+    if profile.get('topics_choices'):
+        profile = dict(profile, topics=rng.choice(profile['topics_choices']))
     prog = gen_program(rng, profile, params)
     return prog, params
 
